@@ -30,7 +30,9 @@ CLAIMED = {
              'name on the same thread, a fresh thread, or a brand-new interpreter under another '
              'PYTHONHASHSEED (with or without a fresh thread); checks: saved cells equal, identical answers to '
              'a post-load history, byte-identical re-save, equal parsed content of the re-saved loaded model, '
-             'cycles/filename/hash/extra_data survive, from_file reflects the last successful to_file. A '
+             'cycles/filename/hash/extra_data survive (the hash is that of the workbook file that was compiled), '
+             'from_file(name) reads what the last successful to_file(name...) wrote whatever types the earlier '
+             'saves wrote. A '
              'quarter of the runs inject one file fault (failed/torn n-th write, failed open, failed unlink) '
              'into a to_file and require full recovery by the next successful save.',
         note='Trusted: the file seam (module-global open/os of pycel.excelcompiler), child interpreters started '
@@ -46,7 +48,10 @@ CLAIMED = {
              'every read the address must be a declared precedent with its edge in dep_graph (or lie inside '
              'declared ranges with edges cell->range->formula), and after every evaluate all inputs the '
              'harness DAG names must be graph ancestors of the evaluated cell (influence confirmed through '
-             'the reference model before reporting). Sampling of formulas and histories, not proof.',
+             'the reference model before reporting; through written references only where a workbook holds '
+             'computed ones). One fault kind: a graph build that fails half way (a formula names a cell on a '
+             'sheet the workbook does not have), after which the model is used on. Sampling of formulas and '
+             'histories, not proof.',
         note='Trusted: the build_eval_context wrapper (sim/seams.py) sees every read a formula makes; the '
              'harness DAG (generator-recorded precedents); networkx.ancestors. Reads by the compiler itself '
              '(no formula on the stack) are out of scope of the statement.',
@@ -86,11 +91,18 @@ CLAIMED = {
              'baton-passing scheduler that decides every switch at yield points of cell-evaluation granularity '
              '(operation boundaries, entry/return of every formula evaluation and of every _C_/_R_ read). '
              'Schedules: the systematic (j, k) family over a 24 x 24 grid per workload pair and seeded random '
-             'switching. Per thread the outcomes and pass counts must equal the alone run on a used thread; '
-             'the alone runs on a fresh and on a warmed-up thread must equal it too.',
+             'switching; a quarter of the random runs and a dedicated site sweep run the threads under '
+             'sys.settrace with every change of line in pycel\'s own source as a yield point, the sweep walking '
+             'the pre-emption point through the distinct functions a thread passes through and stopping the '
+             'other thread inside the same function. Threads are plain threading.Thread or started in a copied '
+             'contextvars context. Per thread the outcomes, pass counts, the interpreter settings its formulas '
+             'saw and a digest of the model it built must equal the alone run on a used thread; the alone runs '
+             'on a fresh and on a warmed-up thread must equal it too; the thread that imports the function '
+             'library and a thread that did not must agree on a sheet of library functions.',
         note='Trusted: the scheduler (one runnable thread at a time; a thread running without the baton is a '
-             'harness error), yield points at cell-evaluation granularity only (no pre-emption between '
-             'arbitrary bytecodes), threads never share a compiler. Known finding KF4 (CELL / reference-form '
+             'harness error), yield points at cell-evaluation granularity and, in the line-grained runs, '
+             'between lines of pycel\'s own source (never between the bytecodes of one line, never inside '
+             'openpyxl / networkx / ruamel), PYTHONHASHSEED=0 pinned by ./check, threads never share a compiler. Known finding KF4 (CELL / reference-form '
              'INDEX read through another compiler) is re-confirmed by a fixed minority of runs.',
         technique=TECH + ': real threads under a deterministic baton-passing scheduler, enumerated (j,k) and seeded random schedules vs. alone-run oracle',
         design='DESIGN.md section 3 C07'),
@@ -100,7 +112,8 @@ CLAIMED = {
              're-assignments (cells, range members, whole-range block writes) and output reads, optionally '
              'through yml/json/pkl save+load on the same or a fresh thread; inputs are drawn from leaf '
              'constants, ranges written in formulas, buried formula cells, constants that are also outputs, '
-             'inputs feeding only some or none of the outputs. Every output read is compared with the '
+             'inputs feeding only some or none of the outputs, inputs assigned between the evaluation of the '
+             'outputs and the trim, a second trim after the documented ValueError. Every output read is compared with the '
              'untrimmed reference model under the same input assignment.',
         note='Trusted: harness generator/driver and its DAG; reference shares pycel arithmetic. Outputs are '
              'evaluated once before trim (as every use in the repository does); input ranges are ranges some '
@@ -115,7 +128,8 @@ CLAIMED = {
              'disarmed; or an unknown function), in plain and iterative mode, incl. members of ranges, CSE '
              'blocks, cells under an operator that captured an error value first, and cells inside a '
              'contracting circular block; followed by retry / input-write / repair (disarm, expiry, '
-             'overwrite with a constant) / follow-up histories and a final sweep. An exception is accepted '
+             'overwrite with a constant) / follow-up histories (recalculate() and validate_calcs() among the '
+             'operations) and a final sweep. An exception is accepted '
              'only on F or a dependant, only while the fault fires in that read, and only as a '
              'PyCelException; every returned value must equal the fault-free reference.',
         note='Trusted: BOOM/unknown-function as the model of "error inside a library or plugin function"; '
@@ -130,7 +144,8 @@ CLAIMED = {
              'and then every formula cell in turn with its stored result corrupted (numbers beyond the '
              'tolerance; text, logical, error results replaced by another value or type), plus cells that '
              'call an unknown function or a raising plugin; tolerance and the set of checked outputs are '
-             'drawn (the site may be unreachable). validate_calcs must return {} for clean files and '
+             'drawn (the site may be unreachable; workbooks with computed references are validated as a '
+             'whole). validate_calcs must return {} for clean files and '
              'unreachable sites, name the corrupted cell with its stored and recomputed value, report nothing '
              'that does not depend on it, and list failing cells under exceptions / not-implemented.',
         note='Trusted: the xlsx writer stub (it is the fault injector), harness DAG for reachability and '
